@@ -12,6 +12,9 @@ PROFILES = {
     "fol": {"task": 3, "taskc": 5, "fol": 6, "optc": 3},
     "resc": {"task": 4, "worker": 2, "cumulative": 1, "select": 2, "require": 7, "resc": 6},
     "buffer": {"task": 5, "buffer": 2, "bufc": 6, "taskc": 2},
+    # resources together with task constraints and connectives over them (what a connective leaves unenforced must not
+    # switch off a resource rule)
+    "resfol": {"task": 3, "worker": 1, "cumulative": 1, "require": 6, "taskc": 5, "fol": 4},
     "ind": {"task": 5, "worker": 2, "cumulative": 1, "select": 1, "require": 6, "buffer": 1, "bufc": 2, "ind": 7,
             "indc": 2},
     "obj": {"task": 5, "worker": 2, "require": 5, "taskc": 3, "ind": 3, "obj": 5, "buffer": 1, "bufc": 2},
@@ -27,6 +30,9 @@ PROFILES = {
     "focus_fol": {"fol": 3, "optc": 1},
     "focus_ind": {"ind": 4, "indc": 1},
     "focus_obj": {"obj": 3, "ind": 1},
+    # several indicators / objectives declared back to back on a small problem with a finite horizon, all objectives in
+    # one direction (mixed directions are outside what the weighted combination defines): the multi-objective paths
+    "focus_multiobj": {"obj": 3, "ind": 2},
     "all": {"ind": 2, "indc": 1, "task": 5, "worker": 2, "cumulative": 1, "select": 2, "require": 6, "taskc": 5, "fol": 3,
             "optc": 1, "resc": 4, "buffer": 1, "bufc": 3},
 }
@@ -61,6 +67,10 @@ class Gen:
         if self.focus:
             self.invalid_p = 0.0
             self.horizon = rng.choice([12, 16, 20, 25, 30, 40, None])
+        self.direction = None
+        if profile == "focus_multiobj":
+            self.horizon = rng.choice([8, 10, 12, 16, 20])
+            self.direction = rng.choice(["max", "min"])
 
     # ------------------------------------------------------------------ helpers
     def keeps_satisfiable(self, d):
@@ -280,6 +290,11 @@ class Gen:
             return self.g_task()
         t = rng.choice(ts)
         t2 = rng.choice(ts)
+        # two-task constraints often relate tasks that compete for a worker
+        mates = [n for n in ts if n != t and {id(w) for w in self.real.tasks[n]._required_resources} &
+                 {id(w) for w in self.real.tasks[t]._required_resources}]
+        if mates and rng.random() < 0.5:
+            t2 = rng.choice(mates)
         opts = [n for n in ts if self.real.tasks[n].optional]
         forms = [
             lambda: ("startAt", t, self.ival()),
@@ -419,7 +434,17 @@ class Gen:
         d = {"op": "constraint", "c": c}
         if rng.random() < 0.12:
             d["optional"] = True
+        before = self.nconstraints()
         self.emit(d)
+        if k == "fromExpr" and self.nconstraints() == before + 1 and rng.random() < 0.5:
+            # a wrapped user expression is an operand like any other constraint
+            me = ("ref", before)
+            self.operands_used.add(before)
+            k2 = rng.choice(["or", "implies", "xor", "ifThenElse"])
+            c2 = {"or": lambda: ("or", [me, self.operand()]), "implies": lambda: ("implies", self.cond(), [me]),
+                  "xor": lambda: ("xor", me, self.operand()),
+                  "ifThenElse": lambda: ("ifThenElse", self.cond(), [self.operand()], [me])}[k2]()
+            self.emit({"op": "constraint", "c": c2})
 
     def g_optc(self):
         rng = self.rng
@@ -619,6 +644,16 @@ class Gen:
         if self.real.buffers:
             b = rng.choice(list(self.real.buffers))
             forms += [lambda: ("maximizeMaxBuffer", b), lambda: ("minimizeMaxBuffer", b)]
+        if self.direction is not None:
+            ups = ("maximizeIndicator", "startLatest", "resourceUtilization", "maximizeMaxBuffer")
+            for _ in range(20):
+                o = rng.choice(forms)()
+                have = [x["o"] for x in self.script if x["op"] == "objective"]
+                if any(h[0] == o[0] and (o[0] not in ("maximizeIndicator", "minimizeIndicator") or h[1] == o[1]) for h in have):
+                    continue            # the objective's name would collide with an earlier one
+                if (o[0] in ups) == (self.direction == "max"):
+                    return self.emit({"op": "objective", "o": o})
+            return None
         self.emit({"op": "objective", "o": rng.choice(forms)()})
 
     # ------------------------------------------------------------------ driver
@@ -655,7 +690,7 @@ class Gen:
                 self.emit(d)
         kinds = list(self.w)
         weights = [self.w[k] for k in kinds]
-        want = rng.randint(1, 3)
+        want = rng.randint(1, 3) if self.direction is None else rng.randint(3, 5)
         for _ in range(8):
             if sum(1 for x in self.script if x["op"] in ("constraint", "indicator", "objective")) >= want:
                 break
